@@ -149,12 +149,12 @@ func fwdhandleControlMessageNP(process *Process, cm ControlMessage, re *RuntimeE
 	// Notify that the process will change providers (i.e. the process.Providers will die and be replaced by cm.Providers)
 	process.terminateBeforeRename(process.Providers, cm.Providers, re)
 
-	// the process.Providers can no longer be used, so close them
-	// todo check if they are being closed anywhere else
-	closeProvidersNP(process.Providers)
+	// The request arrived on the first provider's control channel, so only that provider is
+	// replaced (and closed). Any other provider names remain in use by their clients.
+	closeProvidersNP(process.Providers[:1])
 
-	// Change the providers to the one being forwarded to
-	process.Providers = cm.Providers
+	// Change the provider to the ones being forwarded to
+	process.Providers = append(append([]Name{}, cm.Providers...), process.Providers[1:]...)
 
 	process.transitionLoopNP(re)
 }
